@@ -185,7 +185,14 @@ def judge(case, res, name, outs=None, which="adapters_read1", label="R1", jsonpa
         t = tally_info(rows, adapters)
     except fmt.FormatError as e:
         return [C.V("info-unreadable", f"{name}: {e}")], 0
-    return compare(name, label, adapters, t, check_rc and label == "R1", any_rc), len(rows)
+    out = compare(name, label, adapters, t, check_rc and label == "R1", any_rc)
+    # reads with at least one applied match
+    with_adapter = len({C.rid(f[0]) for f in rows})
+    key = "read1_with_adapter" if label == "R1" else "read2_with_adapter"
+    reported = j["read_counts"][key]
+    if adapters and (reported or 0) != with_adapter:
+        out.append(C.V("with-adapter-count", f"{name}: {key}={reported} but {with_adapter} reads had a match applied"))
+    return out, len(rows)
 
 
 def mirrored(case):
